@@ -8,6 +8,7 @@ package main
 import (
 	"context"
 	"fmt"
+	"strings"
 	"sync"
 	"sync/atomic"
 	"time"
@@ -302,6 +303,80 @@ func unitC11scripted(e common.Env, p *common.Part) {
 			c.Stop()
 			p.Case(cs, true)
 			p.Count("precondition_cases", 1)
+		}
+		// a context that is already over when the call is made (cancelled / deadline in the past), at all nodes or at one node only;
+		// unusable data at one node only. Every call returns an error (the nodes with a live context at their deadline).
+		idx := 0
+		for _, mode := range []string{"loud", "barrier", "silent"} {
+			for _, op := range []string{"keygen", "sign"} {
+				for _, kind := range []string{"cancelled before the call everywhere", "deadline in the past everywhere", "cancelled before the call at node 2 only", "unusable stored data at node 2 only"} {
+					idx++
+					if kind == "unusable stored data at node 2 only" && op == "keygen" {
+						continue
+					}
+					cs := fmt.Sprintf("%s %s: %s", mode, op, kind)
+					p.Begin(cs)
+					ids := []uint16{1, 2, 3}
+					c := newRCluster(cluster.Config{Map: identityMap(ids...), Barrier: mode == "barrier", Silent: mode == "silent", Threshold: 2, Script: backend.Script{Rounds: []uint8{1, 2}, Bcast: true, P2P: true}}, e.Rng("c11pre", idx), simnet.Uniform)
+					if mode == "silent" {
+						c.SetPick(tss.DkgTopicName, ids)
+						c.SetPick("pre-topic", ids)
+					}
+					live, cancelLive := context.WithTimeout(context.Background(), 150*time.Millisecond)
+					dead, cancelDead := context.WithCancel(context.Background())
+					cancelDead()
+					if kind == "deadline in the past everywhere" {
+						dead, cancelDead = context.WithDeadline(context.Background(), time.Now().Add(-time.Second))
+					}
+					res := map[uint16]error{}
+					var mu sync.Mutex
+					var w sync.WaitGroup
+					for _, u := range ids {
+						u := u
+						ctx := live
+						if strings.HasSuffix(kind, "everywhere") || (u == 2 && strings.HasPrefix(kind, "cancelled")) {
+							ctx = dead
+						}
+						data := []byte("share-of-x")
+						if u == 2 && strings.HasPrefix(kind, "unusable") {
+							data = []byte("garbage")
+						}
+						c.Schemes[u].SetStoredData(data)
+						w.Add(1)
+						go func() {
+							defer w.Done()
+							var err error
+							if op == "keygen" {
+								_, err = c.Schemes[u].KeyGen(ctx, 3, 2)
+							} else {
+								_, err = c.Schemes[u].Sign(ctx, []byte("digest-0123456789abcdef0123456789"), "pre-topic")
+							}
+							mu.Lock()
+							res[u] = err
+							mu.Unlock()
+						}()
+					}
+					done := make(chan struct{})
+					go func() { w.Wait(); close(done) }()
+					select {
+					case <-done:
+						for u, err := range res {
+							if err == nil {
+								p.Violate("nil-error-with-failed-precondition", fmt.Sprintf("%s: node %d returned nil", cs, u), nil)
+							} else {
+								p.Count("error_returns", 1)
+							}
+						}
+					case <-time.After(10 * time.Second):
+						p.Violate("hang/failed-precondition", cs+": a call had not returned 10 s after every context had ended", nil)
+					}
+					cancelLive()
+					cancelDead()
+					c.Stop()
+					p.Case(cs, true)
+					p.Count("precondition_cases", 1)
+				}
+			}
 		}
 	}
 }
